@@ -1036,7 +1036,8 @@ class SetItemNative(Contract):
     """BOUNDED STAND-IN ONLY (never counted as proved).  Two assignment forms the symbolic SetItem contract covers with scalar
     values only: (1) a[mask] = v for a FULL N-d boolean mask and an ARRAY v with one value per true cell (NumPy fills the
     true cells in row-major order); (2) a[l0:l1] = v (inclusive label slice, optionally with a second index) and an ARRAY v
-    of the selection's shape.  Checked on the real code: exactly the cells the same index reads are changed, reading the
+    of the selection's shape; (3) cast=True on integer data beyond 2**24 with a float32 / float16 value (the widened array must
+    still hold every other cell exactly).  Checked on the real code: exactly the cells the same index reads are changed, reading the
     index back returns v, every other cell, the labels and the metadata are untouched; inplace=False leaves the operand
     alone.  Ranks 1-2, extents 1-3, every mask / slice bound of the family.  [C03]"""
     target = "dimarray.core.bases:AbstractHasAxes._setitem"
@@ -1048,6 +1049,11 @@ class SetItemNative(Contract):
             for rank in (1, 2):
                 for inplace in (True, False):
                     yield {"name": "%s-r%d-%s" % (form, rank, "inplace" if inplace else "copy"), "form": form, "rank": rank, "inplace": inplace}
+        # (3) cast=True with a value of a NARROWER float type than the widening needs: integer data beyond 2**24 and a float32
+        # value -- every cell that is not addressed must keep its value exactly (the verifier's reals have no precision)
+        for vt in ("float32", "float16"):
+            for inplace in (True, False):
+                yield {"name": "cast-int64<-%s-%s" % (vt, "inplace" if inplace else "copy"), "form": "cast-narrow", "rank": 2, "inplace": inplace, "vt": vt}
 
     def setup(self, S, case):
         from .common import assume_order
@@ -1071,6 +1077,20 @@ class SetItemNative(Contract):
         S, case = env["S"], env["case"]
         labels = [np.asarray(L, dtype=float) for L in env["labels"]]
         a = S.da.DimArray(np.array(env["data"], dtype=float), axes=[("x%d" % d, L.copy()) for d, L in enumerate(labels)])
+        if case["form"] == "cast-narrow":
+            big = (np.arange(a.values.size, dtype=np.int64).reshape(a.values.shape) + 2 ** 24 + 1) * (1 + 2 * (np.arange(a.values.size).reshape(a.values.shape) % 2))
+            a = S.da.DimArray(big, axes=[("x%d" % d, L.copy()) for d, L in enumerate(labels)])
+            a.attrs["units"] = "K"
+            before = a.values.copy()
+            lab = labels[0][0]
+            sel = np.zeros(before.shape, dtype=bool)
+            sel[0] = True
+            v = getattr(np, case["vt"])(0.5)
+            env.update({"a": a, "before": before, "sel": sel, "v": np.full(int(sel.sum()), 0.5), "key": lab})
+            if case["inplace"]:
+                a.put(lab, v, axis=0, cast=True)
+                return a
+            return a.put(lab, v, axis=0, cast=True, inplace=False)
         a.attrs["units"] = "K"
         before = a.values.copy()
         if case["form"] == "ndmask-array":
@@ -1099,7 +1119,8 @@ class SetItemNative(Contract):
         same = lambda x, y: np.asarray(x).shape == np.asarray(y).shape and bool(np.all((np.asarray(x) == np.asarray(y)) | (np.isnan(np.asarray(x, dtype=float)) & np.isnan(np.asarray(y, dtype=float)))))
         yield "is-dimarray", S.is_dimarray(result)
         yield "addressed-cells-hold-the-values-in-selection-order", same(result.values[sel], np.asarray(v).ravel())
-        yield "every-other-cell-untouched", same(result.values[~sel], before[~sel])
+        yield "every-other-cell-untouched", same(result.values[~sel], before[~sel]) and (
+            case["form"] != "cast-narrow" or [int(t) for t in result.values[~sel].tolist()] == [int(t) for t in before[~sel].tolist()])
         yield "labels-dims-metadata-untouched", tuple(result.dims) == tuple(a.dims) and all(same(r.values, o) for r, o in zip(result.axes, [np.asarray(L, dtype=float) for L in env["labels"]])) and dict(result.attrs) == {"units": "K"}
         if not case["inplace"]:
             yield "operand-left-unchanged", same(a.values, before) and result is not a
